@@ -963,25 +963,25 @@ Proof. intros OKx OKy H0 Ha Hy Hn. unfold chain_wf. cbn [tsteps map interior las
   constructor; [apply (tstep_data x); exact OKx | constructor; [apply (tstep_data y); exact OKy | constructor]]. Qed.
 
 (* RLC._s_model: an element with an initial-condition source (p, q) = impedance (p, d) + source (d, q) *)
-Theorem s_model_equiv (e : elem) (p q d : nat) IN IV IR :
+Theorem s_model_equiv (sl : K) (e : elem) (p q d : nat) IN IV IR :
   match etyp e with TR | TNR | TC | TL | TZ | TY => True | _ => False end -> chain_el_ok e -> enodes e = [p; q] ->
   z_of s e <> f0 -> d <> O -> d <> p -> d <> q ->
   let w := [(e, true, q)] in
-  let w2 := map (fun x => (x, true, en2 x)) (fst (s_model_elem keqb s KwS e d)) in
+  let w2 := map (fun x => (x, true, en2 x)) (fst (s_model_elem keqb s sl KwS e d)) in
   (forall n, IN n = true <-> In n (interior (tsteps w) ++ interior (tsteps w2))) ->
   (forall o, IR o = true <-> In o (owns (tsteps w) ++ owns (tsteps w2))) ->
   (forall o, In o (owns (tsteps w) ++ owns (tsteps w2)) -> IV o = true) ->
-  port_equiv IN IV IR [esem e] (nsem (fst (s_model_elem keqb s KwS e d))).
+  port_equiv IN IV IR [esem e] (nsem (fst (s_model_elem keqb s sl KwS e d))).
 Proof.
   intros Ht OK En Hz Hd0 Hdp Hdq w w2 HIN HIR HIV.
   destruct (tz_z_of e Ht) as [TZe TEe].
-  assert (Ew2 : map t_e w2 = fst (s_model_elem keqb s KwS e d)).
+  assert (Ew2 : map t_e w2 = fst (s_model_elem keqb s sl KwS e d)).
   { unfold w2. rewrite map_map. cbn [t_e fst]. apply map_id. }
   change [esem e] with (nsem (map t_e w)). rewrite <- Ew2. clear Ew2.
   assert (W1 : wwalk p w) by (cbn; split; [exact En | exact I]).
   assert (O1 : forall x, In x w -> chain_el_ok (t_e x)) by (intros x [<-|[]]; exact OK).
   assert (WF1 : chain_wf (zn p) (tsteps w)) by (apply chain_wf_single; exact OK).
-  assert (Sel : fst (s_model_elem keqb s KwS e d) =
+  assert (Sel : fst (s_model_elem keqb s sl KwS e d) =
                 if keqb (voc_of s e) f0 then [Elem (NVar 0 (orig_id (ename e))) TZ (enodes e) KwNone (z_of s e) None]
                 else [Elem (NVar 0 (orig_id (ename e))) TZ [en1 e; d] KwNone (z_of s e) None;
                       Elem (NVar 1 (orig_id (ename e))) TV [d; en2 e] KwS (voc_of s e) None]).
@@ -1009,9 +1009,9 @@ Qed.
 (* the unchanged tree prints the inductor's source as a plain constant, which
    the netlist language reads as a DC source: its transform is kwf KwNone times
    the value, not the value *)
-Theorem s_model_L_source_refuted (e : elem) (d : nat) :
+Theorem s_model_L_source_refuted (sl : K) (e : elem) (d : nat) :
   etyp e = TL -> voc_of s e <> f0 -> kwf KwNone <> f1 ->
-  forall x, In x (fst (s_model_elem keqb s KwNone e d)) -> etyp x = TV -> te x <> te e.
+  forall x, In x (fst (s_model_elem keqb s sl KwNone e d)) -> etyp x = TV -> te x <> te e.
 Proof.
   intros Ht Hv Hk x Hx Hxt. unfold s_model_elem in Hx. rewrite Ht in Hx.
   assert (Ev : keqb (voc_of s e) f0 = false) by (destruct (keqb (voc_of s e) f0) eqn:E; [apply keqb_ok in E; contradiction | reflexivity]).
@@ -1585,6 +1585,63 @@ Proof.
   - intros v ib H. destruct (gsim_o_perm _ IN IR _ _ _ _ (Permutation_map esem (Permutation_sym Pn)) (Permutation_map esem (Permutation_sym P0)) G2 v ib H) as [v' [ib' [A1 [A2 [A3 _]]]]].
     exists v', ib'. auto.
 Qed.
+
+(* ================= the orientation rule ========================================= *)
+(* THE RULE a series / parallel combination has to satisfy (whatever code computes
+   the combined element [new] that takes the first member's place):
+     series  : impedance of new = sum of the members' impedances, and the source
+               term of new, signed by the first member's direction along the chain,
+               = sum of the members' source terms, each signed by its own direction;
+     parallel: the same with admittances and source currents (par_sums_ok).
+   Sufficient: series_equiv_inplace / series_combine_sound, parallel_norton_equiv /
+   parallel_L_equiv / parallel_combine_sound.  Necessary: loop_esum_necessary,
+   par_norton_necessary. *)
+Definition series_rule (ms : list mem_t) (m0 : mem_t) (new : elem) : Prop :=
+  tz new = tzsum ms /\ sgn (snd m0) (te new) = tesum ms.
+Definition parallel_rule (ms : list mem_t) (m0 : mem_t) (new : elem) : Prop := par_sums_ok ms m0 new.
+
+(* the orientation-aware _do_simplify_combine satisfies the rule for every type,
+   orientation pattern, initial-condition pattern and enumeration order *)
+Theorem series_rule_repaired t (ms : list mem_t) m0 ms' add common signed nm new :
+  ms = m0 :: ms' -> all_type t ms -> series_action t = Ok (ACombine add common signed) -> same_kwf ms m0 ->
+  (add = false -> rsum ms <> f0) ->
+  (common = true -> exists e0, check_ic keqb repaired e0 (els_of ms) (sames_of ms) = Ok true) ->
+  new_elem repaired (els_of ms) (sames_of ms) add common signed nm = Ok new -> series_rule ms m0 new.
+Proof. intros E AT SA KW Hr CK H. split;
+  [apply (series_tz repaired t ms m0 ms' add common signed nm new) | apply (series_te_rep t ms m0 ms' add common signed nm new)]; assumption. Qed.
+Theorem parallel_rule_repaired t (ms : list mem_t) m0 ms' add common signed nm new :
+  ms = m0 :: ms' -> all_type t ms -> parallel_action t = Ok (ACombine add common signed) -> same_kwf ms m0 ->
+  (add = false -> rsum ms <> f0) ->
+  (common = true -> exists e0, check_ic keqb repaired e0 (els_of ms) (sames_of ms) = Ok true) ->
+  new_elem repaired (els_of ms) (sames_of ms) add common signed nm = Ok new -> parallel_rule ms m0 new.
+Proof. intros E AT SA KW Hr CK H. split;
+  [apply (parallel_ty repaired t ms m0 ms' add common signed nm new) | apply (parallel_tj_rep t ms m0 ms' add common signed nm new)]; assumption. Qed.
+(* the unchanged tree satisfies it exactly under plain_ok_series / plain_ok_parallel ... *)
+Theorem series_rule_unchanged t (ms : list mem_t) m0 ms' add common signed nm new :
+  ms = m0 :: ms' -> all_type t ms -> series_action t = Ok (ACombine add common signed) -> same_kwf ms m0 ->
+  (add = false -> rsum ms <> f0) -> plain_ok_series t ms m0 ->
+  new_elem unchanged_tree (els_of ms) (sames_of ms) add common signed nm = Ok new -> series_rule ms m0 new.
+Proof. intros E AT SA KW Hr PO H. split;
+  [apply (series_tz unchanged_tree t ms m0 ms' add common signed nm new) | apply (series_te_plain t ms m0 ms' add common signed nm new)]; assumption. Qed.
+Theorem parallel_rule_unchanged t (ms : list mem_t) m0 ms' add common signed nm new :
+  ms = m0 :: ms' -> all_type t ms -> parallel_action t = Ok (ACombine add common signed) -> same_kwf ms m0 ->
+  (add = false -> rsum ms <> f0) -> plain_ok_parallel t ms m0 ->
+  new_elem unchanged_tree (els_of ms) (sames_of ms) add common signed nm = Ok new -> parallel_rule ms m0 new.
+Proof. intros E AT SA KW Hr PO H. split;
+  [apply (parallel_ty unchanged_tree t ms m0 ms' add common signed nm new) | apply (parallel_tj_plain t ms m0 ms' add common signed nm new)]; assumption. Qed.
+(* ... and violates it otherwise: two opposite voltage sources in series (F3),
+   two opposite current sources in parallel *)
+Theorem series_rule_violated (A B : K) : fmul (kwf KwNone) B <> f0 ->
+  ~ series_rule (f3_ms A B) (f3_V1 A, false) (f3_new A B).
+Proof. intros HB [_ H]. unfold tesum, f3_ms, f3_new, f3_V1, f3_V2 in H. cbn in H. apply (twice_nz _ HB).
+  transitivity (fsub (fadd (fopp (fmul (kwf KwNone) A)) (fadd (fmul (kwf KwNone) B) f0)) (fopp (fmul (kwf KwNone) (fadd A (fadd B f0))))); [ring | rewrite <- H; ring]. Qed.
+Theorem parallel_rule_violated (A B : K) : fmul (kwf KwNone) B <> f0 ->
+  let I1 := Elem (NOrig 0) TI [1; 0]%nat KwNone A None in
+  let I2 := Elem (NOrig 1) TI [0; 1]%nat KwNone B None in
+  exists new, new_elem unchanged_tree [I1; I2] [true; false] true false true (NNew TI 1) = Ok new /\
+              ~ parallel_rule [(I1, true); (I2, false)] (I1, true) new.
+Proof. intros HB I1 I2. eexists. split; [reflexivity|]. intros [_ H]. unfold tjsum in H. cbn in H. apply (twice_nz _ HB).
+  transitivity (fsub (fmul (kwf KwNone) (fadd A (fadd B f0))) (fadd (fmul (kwf KwNone) A) (fadd (fopp (fmul (kwf KwNone) B)) f0))); [ring | rewrite H; ring]. Qed.
 End Sem.
 
 Arguments zn : clear implicits. Arguments branch_of {K}. Arguments esem {K}. Arguments nsem {K}. Arguments valid {K}.
@@ -1619,3 +1676,9 @@ Print Assumptions series_raw_nodes.
 Print Assumptions series_combine_sound.
 Print Assumptions do_combine_shape.
 Print Assumptions parallel_combine_sound.
+Print Assumptions series_rule_repaired.
+Print Assumptions parallel_rule_repaired.
+Print Assumptions series_rule_unchanged.
+Print Assumptions parallel_rule_unchanged.
+Print Assumptions series_rule_violated.
+Print Assumptions parallel_rule_violated.
